@@ -59,6 +59,12 @@ class WatchdogTimeout(BaseException):
     pass
 
 
+class EndOfDomain(Exception):
+    """An operation outside every statement's domain was ACCEPTED by the implementation
+    (today's behaviour): the world is outside the domain from here on, the run ends without
+    a verdict. Had it been refused, the run would go on and check that the refusal was clean."""
+
+
 class SimFault(Exception):
     """Raised by harness-provided iterables to simulate a failure in the
     middle of a bulk operation."""
